@@ -88,3 +88,65 @@ theorem decode_strItems (s : Bytes) : decodeItems (strItems s) = some s := by
       simp [ih, hh, hl, hu]
 
 end SJ.Proofs.SerEscape
+
+/-! ## buffers of an escaped string are ASCII or fragments cut at ASCII bytes -/
+namespace SJ.Proofs.SerEscape
+open SJ SJ.Model.EscapeLocal
+
+/-- all bytes below 0x80 -/
+def Ascii (b : Bytes) : Prop := b.all (· < 0x80) = true
+
+/-- `b` is a contiguous piece of `s` whose neighbours in `s` (if any) are ASCII bytes — so if `s` is
+    valid UTF-8 then so is `b` (no multi-byte sequence is cut) -/
+def FragOf (s b : Bytes) : Prop :=
+  ∃ pre post, s = pre ++ b ++ post ∧ (∀ c, pre.getLast? = some c → c < 0x80) ∧ (∀ c, post.head? = some c → c < 0x80)
+
+theorem escaped_ascii : ∀ n : Nat, n < 256 → (escapeKind (UInt8.ofNat n) == 0) = false →
+    UInt8.ofNat n < 0x80 ∧ (charEscape (escapeKind (UInt8.ofNat n)) (UInt8.ofNat n)).all (· < 0x80) = true := by
+  decide +kernel
+
+theorem escaped_ascii' (c : UInt8) (h : (escapeKind c == 0) = false) :
+    c < 0x80 ∧ Ascii (charEscape (escapeKind c) c) := by
+  have := escaped_ascii c.toNat c.toNat_lt (by simpa using h)
+  simpa [Ascii] using this
+
+theorem contentsLoop_bufs (s : Bytes) : ∀ (rest pre frag : Bytes), s = pre ++ frag ++ rest →
+    (∀ c, pre.getLast? = some c → c < 0x80) →
+    ∀ b ∈ contentsLoop frag rest, Ascii b ∨ FragOf s b
+  | [], pre, frag, hs, hpre, b, hb => by
+    simp only [contentsLoop] at hb
+    split at hb
+    · simp at hb
+    · simp only [List.mem_singleton] at hb
+      subst hb
+      exact Or.inr ⟨pre, [], by simpa using hs, hpre, by simp⟩
+  | c :: rest, pre, frag, hs, hpre, b, hb => by
+    simp only [contentsLoop] at hb
+    split at hb
+    · exact contentsLoop_bufs s rest pre (frag ++ [c]) (by simp [hs]) hpre b hb
+    · rename_i hc
+      have hc' : (escapeKind c == 0) = false := by simpa using hc
+      obtain ⟨hca, hesc⟩ := escaped_ascii' c hc'
+      simp only [List.mem_append, List.mem_singleton] at hb
+      rcases hb with (hb | hb) | hb
+      · split at hb
+        · simp at hb
+        · simp only [List.mem_singleton] at hb
+          subst hb
+          exact Or.inr ⟨pre, c :: rest, hs, hpre, by simp [hca]⟩
+      · subst hb; exact Or.inl hesc
+      · refine contentsLoop_bufs s rest (pre ++ frag ++ [c]) [] (by simp [hs]) ?_ b hb
+        intro c' hc''
+        simp at hc''
+        subst hc''; exact hca
+
+/-- every buffer written for a string is ASCII or a fragment of it cut at ASCII bytes -/
+theorem escapeStr_bufs (s : Bytes) : ∀ b ∈ escapeStr s, Ascii b ∨ FragOf s b := by
+  intro b hb
+  simp only [escapeStr, escapeContents, List.mem_append, List.mem_singleton] at hb
+  rcases hb with (hb | hb) | hb
+  · subst hb; exact Or.inl (by unfold Ascii; decide)
+  · exact contentsLoop_bufs s s [] [] rfl (by simp) b hb
+  · subst hb; exact Or.inl (by unfold Ascii; decide)
+
+end SJ.Proofs.SerEscape
